@@ -436,7 +436,7 @@ class CursorDiffs(object):
         while changed:
             changed = False
             for (dst, src) in copies:
-                if src in W and dst not in W:
+                if src in W and dst not in W and dst not in loaded:
                     W.add(dst)
                     changed = True
                 # what is written through a copy of a cursor is written through that cursor (char * const d = *output; d[i] = ..)
